@@ -79,6 +79,12 @@ CHECKS = {
   note="Trusted: TLC, JSON extraction from the page. Presentation fields (Display, Color, UniqueName) only checked for presence.",
   technique="TLA+ contract + operational model checked by TLC; TLC trace validation of the real stack-set JSON",
   design_ref="DESIGN.md 5/C17"),
+ "C15": dict(
+  category="model_checking",
+  text="Units.tla holds the unit families with SYMBOLIC factors (2^a 10^b 3600^c), the alias tables and the documented meaning of Scale for explicit, auto, minimum and unknown targets; TLC checks the algebraic laws on the symbolic model (identity, transitive and antisymmetric exact ratios, never crossing families, unambiguous aliases, strictly ordered families) and enumerates every (alias x spelling variant, target, value class) case incl. one below / at / one above every unit boundary, MaxInt64, MinInt64 and unknown units, plus every ordered triple of units for harmonisation. Each case is instantiated with exact rationals and run through the real Scale / ScaledLabel / Label / Percentage / CommonValueType / ScaleProfiles: exact unit name, ratio within 1e-9, commutation with negation, label read-back within display rounding, label monotonicity, totals preserved by harmonisation.",
+  note="Floating-point rounding is outside TLA+: ratios compared with 1e-9 relative tolerance; at an exact unit boundary either neighbouring unit is accepted when the magnitude is within 1e-9 of it.",
+  technique="TLA+ symbolic unit algebra checked by TLC; enumerated cases replayed on the real measurement package with exact rational oracles",
+  design_ref="DESIGN.md 5/C15"),
 }
 
 NOT_YET = "check not built yet in this session (planned in DESIGN.md section 5)"
